@@ -38,8 +38,11 @@ func (c *dupImportChecker) WalkFile(f *ast.File) {
 		imports[pkg] = append(imports[pkg], importDcl)
 	}
 
-	for _, importList := range imports {
-		if len(importList) == 1 {
+	// Report in source order: ranging over the map would emit the groups
+	// in a different order from run to run.
+	for _, importDcl := range f.Imports {
+		importList := imports[importDcl.Path.Value]
+		if len(importList) == 1 || importList[0] != importDcl {
 			continue
 		}
 		c.warn(importList)
